@@ -276,7 +276,7 @@ Print Assumptions C01_elf_shortcut_irrelevant.
     by [single_extent_ok] and for a disk set whose members hold whole pages by
     [ext_loop_chunks]), [sadump_read_page] (with the in-region offset of fix
     04) returns the image's page.  That [sd_open] builds such a state from the
-    three container kinds is covered by the tie only. *)
+    three container kinds: the three theorems below. *)
 Theorem C01_sadump_page_path_partial : forall rd img nbytes exts max_pfn bs ptr nf,
   Forall (fun oc => match oc with Some c => len c = 4096 | None => True end) img ->
   (length img <= 8 * nbytes)%nat ->
@@ -289,13 +289,11 @@ Theorem C01_sadump_page_path_partial : forall rd img nbytes exts max_pfn bs ptr 
 Proof. exact sadump_page_path. Qed.
 Print Assumptions C01_sadump_page_path_partial.
 
-(** single-partition dumps, end to end: block sizes 2^8..2^20 (found by
+(** End to end, for the three container kinds: block sizes 2^8..2^20 (found by
     [verify_magic_number] from the magic-number sequence), header versions 0
     and 1, any number of CPUs in long or legacy mode (x86_64 / ia32 pointer
-    size), any bitmap sizes and exclusion pattern: geometry and every page.
-    [_partial]: disk sets and media backups are covered by the page-path
-    theorem above and the tie, not by an open-path theorem. *)
-Theorem C01_sadump_single_roundtrip_partial : forall l img,
+    size), any bitmap sizes and exclusion pattern: geometry and every page. *)
+Theorem C01_sadump_single_roundtrip : forall l img,
   sd_wf l img ->
   exists st, sd_open (read_files (encode_sadump l img)) 1 = Ok st /\
     sd_ptr_size st = (if existsb (fun b => b) (sl_lma l) then 8 else 4) /\
@@ -304,7 +302,40 @@ Theorem C01_sadump_single_roundtrip_partial : forall l img,
       sd_read_page (read_files (encode_sadump l img)) st z pfn =
       spec_read_page img SADUMP_PAGE_SIZE (sl_max_mapnr l) z pfn.
 Proof. exact sadump_single_roundtrip. Qed.
-Print Assumptions C01_sadump_single_roundtrip_partial.
+Print Assumptions C01_sadump_single_roundtrip.
+
+(** a media backup: the media header in front, checked against the partition
+    header's ids ([check_media_part]); everything else one block later *)
+Theorem C01_sadump_media_roundtrip : forall l img,
+  sd_wf_media l img ->
+  exists st, sd_open (read_files (encode_sadump l img)) 1 = Ok st /\
+    sd_ptr_size st = (if existsb (fun b => b) (sl_lma l) then 8 else 4) /\
+    sd_max_pfn st = sl_max_mapnr l /\ sd_block_size st = sl_block_size l /\
+    forall z pfn,
+      sd_read_page (read_files (encode_sadump l img)) st z pfn =
+      spec_read_page img SADUMP_PAGE_SIZE (sl_max_mapnr l) z pfn.
+Proof. exact sadump_media_roundtrip. Qed.
+Print Assumptions C01_sadump_media_roundtrip.
+
+(** A disk set of any number of disks: disk 1 carries the disk set header
+    (volume ids of all members, checked by [init_disk_set] / [process_vol_id])
+    and the dump headers, every later disk a partition header and page data;
+    each file's extent goes to the slot of its disk number, and the page data
+    of the set is the concatenation of the extents in disk order.
+    [_partial]: the files are given in disk order.  That the extent table does
+    not depend on the order in which the files are passed is C11's theorem
+    (Flat/DiskSetProofs.v, [locate_any_order]); shuffled sets are exercised
+    by the tie. *)
+Theorem C01_sadump_set_roundtrip_partial : forall l img,
+  sd_wf_set l img ->
+  exists st, sd_open (read_files (encode_sadump l img)) (length (sl_vol_ids l)) = Ok st /\
+    sd_ptr_size st = (if existsb (fun b => b) (sl_lma l) then 8 else 4) /\
+    sd_max_pfn st = sl_max_mapnr l /\ sd_block_size st = sl_block_size l /\
+    forall z pfn,
+      sd_read_page (read_files (encode_sadump l img)) st z pfn =
+      spec_read_page img SADUMP_PAGE_SIZE (sl_max_mapnr l) z pfn.
+Proof. exact sadump_set_roundtrip. Qed.
+Print Assumptions C01_sadump_set_roundtrip_partial.
 
 Theorem C01_sadump_disk_set_extents : forall rd (chunks : list (extent * bytes)) pos,
   Forall (fun ec => ex_len (fst ec) = len (snd ec) /\ (len (snd ec)) mod 4096 = 0 /\
@@ -686,12 +717,17 @@ Definition ex_sd_layout : sd_layout :=
      sl_vol_ids := [repeat 6 16]; sl_disk_pages := []; sl_set_hdr_blocks := 1; sl_magic0 := 0 |}.
 Definition ex_sd_img : image := [None; Some (ex_page 4); None; Some (ex_page 5)].
 
-Example C01_nonvacuous_sadump : sd_wf ex_sd_layout ex_sd_img.
+Lemma ex_sd_base kind vols pages :
+  sd_wf_base {| sl_kind := kind; sl_block_size := 256; sl_version := 1; sl_max_mapnr := 9;
+                sl_cpu_size := 1024; sl_lma := [false; true]; sl_sub_blocks := 9; sl_bitmap_blocks := 1;
+                sl_dumpable_blocks := 1; sl_mem_bits := [true]; sl_ids := repeat 5 48;
+                sl_vol_ids := vols; sl_disk_pages := pages; sl_set_hdr_blocks := 1; sl_magic0 := 0 |}
+             ex_sd_img.
 Proof.
   assert (Hp : forall b, len (ex_page b) = 4096)
     by (intro b; unfold ex_page; rewrite len_app, len_repeat; reflexivity).
-  constructor.
-  - reflexivity.
+  constructor; cbn [sl_block_size sl_version sl_max_mapnr sl_cpu_size sl_lma sl_sub_blocks sl_bitmap_blocks
+                    sl_dumpable_blocks sl_ids sl_magic0 nr_cpus length N.of_nat Pos.of_succ_nat Pos.succ].
   - exists 8. split; [split; discriminate | reflexivity].
   - discriminate.
   - split; [discriminate | reflexivity].
@@ -703,8 +739,55 @@ Proof.
   - constructor; [exact I |]. constructor; [apply Hp |]. constructor; [exact I |]. constructor; [apply Hp | constructor].
   - reflexivity.
   - reflexivity.
-  - split; [reflexivity | vm_compute; discriminate].
+Qed.
+
+Example C01_nonvacuous_sadump : sd_wf ex_sd_layout ex_sd_img.
+Proof.
+  constructor.
+  - apply ex_sd_base.
+  - reflexivity.
+  - reflexivity.
+  - vm_compute. discriminate.
   - vm_compute. reflexivity.
+Qed.
+
+Definition ex_sd_media : sd_layout :=
+  {| sl_kind := SdMedia; sl_block_size := 256; sl_version := 1; sl_max_mapnr := 9;
+     sl_cpu_size := 1024; sl_lma := [false; true]; sl_sub_blocks := 9; sl_bitmap_blocks := 1;
+     sl_dumpable_blocks := 1; sl_mem_bits := [true]; sl_ids := repeat 5 48;
+     sl_vol_ids := [repeat 6 16]; sl_disk_pages := []; sl_set_hdr_blocks := 1; sl_magic0 := 0 |}.
+
+Example C01_nonvacuous_sadump_media : sd_wf_media ex_sd_media ex_sd_img.
+Proof.
+  constructor.
+  - apply ex_sd_base.
+  - reflexivity.
+  - reflexivity.
+  - vm_compute. discriminate.
+  - vm_compute. reflexivity.
+  - vm_compute. reflexivity.
+Qed.
+
+Definition ex_sd_set : sd_layout :=
+  {| sl_kind := SdDiskSet; sl_block_size := 256; sl_version := 1; sl_max_mapnr := 9;
+     sl_cpu_size := 1024; sl_lma := [false; true]; sl_sub_blocks := 9; sl_bitmap_blocks := 1;
+     sl_dumpable_blocks := 1; sl_mem_bits := [true]; sl_ids := repeat 5 48;
+     sl_vol_ids := [repeat 6 16; repeat 7 16]; sl_disk_pages := [1; 1]; sl_set_hdr_blocks := 1;
+     sl_magic0 := 0 |}.
+
+Example C01_nonvacuous_sadump_set : sd_wf_set ex_sd_set ex_sd_img.
+Proof.
+  constructor.
+  - apply ex_sd_base.
+  - reflexivity.
+  - split; [discriminate |]. split; [repeat constructor | reflexivity].
+  - split; [reflexivity |]. split; [repeat constructor; discriminate | vm_compute; reflexivity].
+  - split; [vm_compute; discriminate | reflexivity].
+  - vm_compute. discriminate.
+  - cbn [tl split_data sl_disk_pages ex_sd_set]. constructor; [vm_compute; discriminate | constructor].
+  - apply Forall_forall. intros f Hf. apply (in_map len) in Hf.
+    assert (E : map len (encode_sadump ex_sd_set ex_sd_img) = [7680; 4352]) by (vm_compute; reflexivity).
+    rewrite E in Hf. destruct Hf as [<- | [<- | []]]; reflexivity.
 Qed.
 
 Example C01_nonvacuous_rle :
